@@ -33,7 +33,7 @@ pub trait Uni: Sized + Clone + Debug + 'static {
 fn lift<T: Uni, C>(items: &[T], rebuild: impl Fn(Vec<T>) -> C) -> Vec<C> {
     // replace one element at a time by each of its variants
     let mut out = Vec::new();
-    for (i, it) in items.iter().enumerate() {
+    for (i, it) in items.iter().enumerate().take(4) {
         for w in it.variants() {
             let mut v: Vec<T> = items.to_vec();
             v[i] = w;
@@ -44,6 +44,7 @@ fn lift<T: Uni, C>(items: &[T], rebuild: impl Fn(Vec<T>) -> C) -> Vec<C> {
 }
 
 pub fn take<T: Uni>(n: usize) -> Vec<T> {
+    let n = if rich() { n * 2 } else { n };
     let v = T::vals();
     let len = v.len();
     if len <= n {
@@ -69,12 +70,13 @@ macro_rules! int_vals {
         let mut v: Vec<$t> = Vec::new();
         let mut push = |x: i128| {
             if let Ok(y) = <$t>::try_from(x) {
-                if !v.contains(&y) {
-                    v.push(y);
-                }
+                v.push(y);
             }
         };
-        for d in -2i128..=2 {
+        // thorough tier: +-32 around every 7-bit boundary and +-2 around
+        // every power of two
+        let delta: i128 = if rich() { 32 } else { 2 };
+        for d in -delta..=delta {
             push(d);
             push(<$t>::MAX as i128 + d);
             push(<$t>::MIN as i128 + d);
@@ -91,6 +93,20 @@ macro_rules! int_vals {
                 k += 7;
             }
         }
+        if rich() {
+            for k in 1..$bits {
+                let b = 1i128 << k;
+                for d in -2i128..=2 {
+                    push(b + d);
+                    if $signed {
+                        push(-b + d);
+                    }
+                }
+            }
+        }
+        // keep the first occurrence order (simplest values first)
+        let mut seen = std::collections::HashSet::new();
+        v.retain(|x| seen.insert(*x));
         v
     }};
 }
@@ -253,14 +269,33 @@ impl<T: Uni, E: Uni> Uni for Result<T, E> {
     }
 }
 
+thread_local! {
+    /// nesting depth of `seqs` calls (long sequences only at the outermost
+    /// container, otherwise nested containers multiply)
+    static SEQ_DEPTH: std::cell::Cell<u32> = const { std::cell::Cell::new(0) };
+}
+
+/// thorough tier: larger samples of every element domain, every sequence of
+/// length <= 3 over four elements, lengths 4 and 5
+pub static RICH: std::sync::atomic::AtomicBool = std::sync::atomic::AtomicBool::new(false);
+
+fn rich() -> bool { RICH.load(std::sync::atomic::Ordering::Relaxed) }
+
 fn seqs<T: Uni>() -> Vec<Vec<T>> {
-    let e = take::<T>(4);
+    let depth = SEQ_DEPTH.with(|d| {
+        let v = d.get();
+        d.set(v + 1);
+        v
+    });
+    let e = take::<T>(if rich() { 6 } else { 4 });
+    SEQ_DEPTH.with(|d| d.set(depth));
     let mut v: Vec<Vec<T>> = vec![vec![]];
     for a in &e {
         v.push(vec![a.clone()]);
     }
-    for a in e.iter().take(3) {
-        for b in e.iter().take(3) {
+    let k = if rich() { 5 } else { 3 };
+    for a in e.iter().take(k) {
+        for b in e.iter().take(k) {
             v.push(vec![a.clone(), b.clone()]);
         }
     }
@@ -269,7 +304,49 @@ fn seqs<T: Uni>() -> Vec<Vec<T>> {
         v.push(vec![e[2].clone(), e[1].clone(), e[0].clone()]);
         v.push(vec![e[0].clone(), e[0].clone(), e[0].clone()]);
     }
+    if rich() && depth <= 1 {
+        for a in e.iter().take(4) {
+            for b in e.iter().take(4) {
+                for c in e.iter().take(4) {
+                    v.push(vec![a.clone(), b.clone(), c.clone()]);
+                }
+            }
+        }
+        let n = e.len();
+        if n > 0 {
+            v.push((0..4).map(|i| e[i % n].clone()).collect());
+            v.push((0..5).map(|i| e[(i * 2) % n].clone()).collect());
+        }
+    }
+    // the length prefix is a varint: 127 and 128 elements (outermost
+    // container only)
+    if depth == 0 && !e.is_empty() {
+        let n = e.len();
+        v.push((0..127).map(|i| e[i % n].clone()).collect());
+        v.push((0..128).map(|i| e[(i + 1) % n].clone()).collect());
+    }
     v
+}
+
+/// 128 pairwise different values of `T` (outermost container only), if the
+/// domain is large enough: a collection whose length prefix needs two bytes
+fn long_distinct<T: Uni>() -> Option<Vec<T>> {
+    if SEQ_DEPTH.with(|d| d.get()) != 0 {
+        return None;
+    }
+    SEQ_DEPTH.with(|d| d.set(1));
+    let all = T::vals();
+    SEQ_DEPTH.with(|d| d.set(0));
+    let mut out: Vec<T> = Vec::new();
+    for x in all {
+        if !out.iter().any(|y| y.eqv(&x)) {
+            out.push(x);
+            if out.len() == 128 {
+                return Some(out);
+            }
+        }
+    }
+    None
 }
 
 fn seq_eq<T: Uni>(a: &[T], b: &[T]) -> bool {
@@ -297,7 +374,9 @@ pub fn deque_layouts<T: Clone>(c: &[T]) -> Vec<VecDeque<T>> {
     let n = c.len();
     let mut out: Vec<VecDeque<T>> = Vec::new();
     out.push(c.iter().cloned().collect());
-    for k in 0..=n {
+    // long content: the extreme and middle split points only
+    let splits: Vec<usize> = if n <= 8 { (0..=n).collect() } else { vec![0, 1, n / 2, n - 1, n] };
+    for k in splits {
         for cap in [0usize, n, n + 1, n + 3, 8] {
             let mut d: VecDeque<T> = VecDeque::with_capacity(cap);
             for x in &c[k..] {
@@ -314,7 +393,9 @@ pub fn deque_layouts<T: Clone>(c: &[T]) -> Vec<VecDeque<T>> {
     }
     if n > 0 {
         for cap in [n, n + 1, n + 3, 8] {
-            for shift in 1..=cap.max(1) + 1 {
+            let shifts: Vec<usize> =
+                if cap <= 9 { (1..=cap.max(1) + 1).collect() } else { vec![1, cap / 2, cap - 1, cap, cap + 1] };
+            for shift in shifts {
                 let mut d: VecDeque<T> = VecDeque::with_capacity(cap);
                 // move the head around the ring
                 for _ in 0..shift {
@@ -582,7 +663,13 @@ impl<T: Uni> Uni for std::ops::Bound<T> {
 
 impl<T: Uni + Ord> Uni for BTreeSet<T> {
     fn vals() -> Vec<Self> {
-        seqs::<T>().into_iter().map(|v| v.into_iter().collect()).collect()
+        let long = long_distinct::<T>();
+        let mut v: Vec<Self> = seqs::<T>().into_iter().map(|v| v.into_iter().collect()).collect();
+        if let Some(l) = long {
+            v.push(l[..127].iter().cloned().collect());
+            v.push(l.into_iter().collect());
+        }
+        v
     }
 
     fn eqv(&self, o: &Self) -> bool {
@@ -608,8 +695,9 @@ impl<T: Uni + Ord> Uni for BTreeSet<T> {
 
 impl<K: Uni + Ord, V: Uni> Uni for BTreeMap<K, V> {
     fn vals() -> Vec<Self> {
+        let long = long_distinct::<K>();
         let vs = take::<V>(3);
-        seqs::<K>()
+        let mut out: Vec<Self> = seqs::<K>()
             .into_iter()
             .enumerate()
             .map(|(i, ks)| {
@@ -618,7 +706,12 @@ impl<K: Uni + Ord, V: Uni> Uni for BTreeMap<K, V> {
                     .map(|(j, k)| (k, vs[(i + j) % vs.len()].clone()))
                     .collect()
             })
-            .collect()
+            .collect();
+        if let Some(l) = long {
+            out.push(l[..127].iter().cloned().enumerate().map(|(j, k)| (k, vs[j % vs.len()].clone())).collect());
+            out.push(l.into_iter().enumerate().map(|(j, k)| (k, vs[j % vs.len()].clone())).collect());
+        }
+        out
     }
 
     fn eqv(&self, o: &Self) -> bool {
@@ -644,7 +737,7 @@ impl<K: Uni + Ord, V: Uni> Uni for BTreeMap<K, V> {
             out.push(b);
         }
         let items: Vec<(K, V)> = self.iter().map(|(k, v)| (k.clone(), v.clone())).collect();
-        for (i, (_, v)) in items.iter().enumerate() {
+        for (i, (_, v)) in items.iter().enumerate().take(4) {
             for w in v.variants() {
                 let mut m = self.clone();
                 m.insert(items[i].0.clone(), w);
@@ -657,7 +750,13 @@ impl<K: Uni + Ord, V: Uni> Uni for BTreeMap<K, V> {
 
 impl<T: Uni + std::hash::Hash + Eq> Uni for HashSet<T> {
     fn vals() -> Vec<Self> {
-        seqs::<T>().into_iter().map(|v| v.into_iter().collect()).collect()
+        let long = long_distinct::<T>();
+        let mut v: Vec<Self> = seqs::<T>().into_iter().map(|v| v.into_iter().collect()).collect();
+        if let Some(l) = long {
+            v.push(l[..127].iter().cloned().collect());
+            v.push(l.into_iter().collect());
+        }
+        v
     }
 
     fn eqv(&self, o: &Self) -> bool { self == o }
@@ -667,7 +766,7 @@ impl<T: Uni + std::hash::Hash + Eq> Uni for HashSet<T> {
         let mut out = Vec::new();
         // every rotation and the reverse of the current iteration order, in
         // tables of several capacities (each new table has a new random seed)
-        for r in 0..items.len().max(1) {
+        for r in 0..items.len().clamp(1, 4) {
             for cap in [0usize, 64] {
                 let mut h = HashSet::with_capacity(cap);
                 for i in 0..items.len() {
@@ -694,8 +793,9 @@ impl<T: Uni + std::hash::Hash + Eq> Uni for HashSet<T> {
 
 impl<K: Uni + std::hash::Hash + Eq, V: Uni> Uni for HashMap<K, V> {
     fn vals() -> Vec<Self> {
+        let long = long_distinct::<K>();
         let vs = take::<V>(3);
-        seqs::<K>()
+        let mut out: Vec<Self> = seqs::<K>()
             .into_iter()
             .enumerate()
             .map(|(i, ks)| {
@@ -704,7 +804,12 @@ impl<K: Uni + std::hash::Hash + Eq, V: Uni> Uni for HashMap<K, V> {
                     .map(|(j, k)| (k, vs[(i + j) % vs.len()].clone()))
                     .collect()
             })
-            .collect()
+            .collect();
+        if let Some(l) = long {
+            out.push(l[..127].iter().cloned().enumerate().map(|(j, k)| (k, vs[j % vs.len()].clone())).collect());
+            out.push(l.into_iter().enumerate().map(|(j, k)| (k, vs[j % vs.len()].clone())).collect());
+        }
+        out
     }
 
     fn eqv(&self, o: &Self) -> bool {
@@ -715,7 +820,7 @@ impl<K: Uni + std::hash::Hash + Eq, V: Uni> Uni for HashMap<K, V> {
     fn variants(&self) -> Vec<Self> {
         let items: Vec<(K, V)> = self.iter().map(|(k, v)| (k.clone(), v.clone())).collect();
         let mut out = Vec::new();
-        for r in 0..items.len().max(1) {
+        for r in 0..items.len().clamp(1, 4) {
             for cap in [0usize, 64] {
                 let mut h = HashMap::with_capacity(cap);
                 for i in 0..items.len() {
@@ -730,7 +835,7 @@ impl<K: Uni + std::hash::Hash + Eq, V: Uni> Uni for HashMap<K, V> {
             h.insert(k.clone(), v.clone());
         }
         out.push(h);
-        for (i, (_, v)) in items.iter().enumerate() {
+        for (i, (_, v)) in items.iter().enumerate().take(4) {
             for w in v.variants() {
                 let mut m = self.clone();
                 m.insert(items[i].0.clone(), w);
@@ -900,9 +1005,25 @@ impl Ctx {
     }
 }
 
+/// `VT_PROFILE=1`: report types whose check takes more than a second
+struct Timer(std::time::Instant, String);
+
+impl Timer {
+    fn new(name: &str) -> Self { Self(std::time::Instant::now(), name.to_string()) }
+}
+
+impl Drop for Timer {
+    fn drop(&mut self) {
+        if std::env::var("VT_PROFILE").is_ok() && self.0.elapsed().as_millis() > 1000 {
+            eprintln!("[vt] {} took {:.1}s", self.1, self.0.elapsed().as_secs_f64());
+        }
+    }
+}
+
 /// C12 for one type
 pub fn check_ser<T: Uni + Encode + Decode>(ctx: &mut Ctx, name: &str) {
     let p = Plugin::default();
+    let _t = Timer::new(name);
     let vals = T::vals();
     ctx.types += 1;
     let bad_before = ctx.bad.len();
@@ -1012,6 +1133,7 @@ pub fn check_ser<T: Uni + Encode + Decode>(ctx: &mut Ctx, name: &str) {
 /// C13 for one type
 pub fn check_hash<T: Uni + StableHash + Encode + Decode>(ctx: &mut Ctx, name: &str) {
     let p = Plugin::default();
+    let _t = Timer::new(name);
     let vals = T::vals();
     ctx.types += 1;
     let streams: Vec<Vec<u8>> = vals.iter().map(|v| stream(v)).collect();
@@ -1032,7 +1154,7 @@ pub fn check_hash<T: Uni + StableHash + Encode + Decode>(ctx: &mut Ctx, name: &s
     for v in &vals {
         ctx.values += 1;
         let h = hash128(v, 7);
-        ctx.digest = ctx.digest.rotate_left(5) ^ h;
+        ctx.digest = ctx.digest.wrapping_add(h);
         // deterministic within the process, history free w.r.t. clone
         if hash128(&v.clone(), 7) != h {
             ctx.fail(format!("{name}: hash of a clone of {v:?} differs"));
@@ -1424,7 +1546,7 @@ pub fn check_hash_only<T: Uni + StableHash>(ctx: &mut Ctx, name: &str) {
     for v in &vals {
         ctx.values += 1;
         let h = hash128(v, 7);
-        ctx.digest = ctx.digest.rotate_left(5) ^ h;
+        ctx.digest = ctx.digest.wrapping_add(h);
         if hash128(&v.clone(), 7) != h || hash128(&v, 7) != h || hash128(&&v, 7) != h {
             ctx.fail(format!("{name}: hash of {v:?} depends on the storage"));
         }
@@ -1501,7 +1623,7 @@ pub fn check_os_strings(ctx: &mut Ctx) {
         ctx.values += 1;
         let os = OsString::from(s.clone());
         let h = hash128(&os, 7);
-        ctx.digest = ctx.digest.rotate_left(5) ^ h;
+        ctx.digest = ctx.digest.wrapping_add(h);
         if hash128(os.as_os_str(), 7) != h {
             ctx.fail(format!("OsString/OsStr {s:?} hash differently"));
         }
@@ -1535,7 +1657,7 @@ pub fn check_os_strings(ctx: &mut Ctx) {
     let d: Vec<u128> = e.iter().map(|x| hash128(&std::mem::discriminant(x), 7)).collect();
     ctx.values += 4;
     for h in &d {
-        ctx.digest = ctx.digest.rotate_left(5) ^ h;
+        ctx.digest = ctx.digest.wrapping_add(*h);
     }
     if d[0] != d[1] || d[0] == d[2] || d[0] == d[3] || d[2] == d[3] {
         ctx.fail("Discriminant<T>: hash does not identify the variant".into());
